@@ -82,14 +82,23 @@ Proof. exists 1, 1%nat, 2. cbn. split; [reflexivity|discriminate]. Qed.
 (* ---------- the data directory of an interrupted restore ---------- *)
 
 (* after any crash inside restoreFromPath the reopened db holds all of the old content or all of the
-   checkpoint's, never a mixture *)
-Theorem restore_crash_all_or_nothing k :
-  open_after_crash (rrun {| rs_data := DOld; rs_marked := false |} (firstn k restore_steps)) <> DMixed.
-Proof. do 5 (destruct k as [|k]; [cbn; discriminate|]). cbn. discriminate. Qed.
+   content of the checkpoint IN THE DIRECTORY THE RESTORE WAS TAKING IT FROM, never a mixture and
+   never the checkpoint of the same name in the other backup directory *)
+Theorem restore_crash_all_or_nothing f k :
+  let d := open_after_crash (rrun {| rs_data := DOld; rs_marked := None |} (firstn k (restore_steps f))) in
+  d = DOld \/ d = DNew f.
+Proof. do 5 (destruct k as [|k]; [cbn; auto|]). cbn. auto. Qed.
 
-Theorem restore_crash_unmarked_refuted :
-  exists k, open_after_crash (rrun {| rs_data := DOld; rs_marked := false |} (firstn k restore_steps_unmarked)) = DMixed.
+Theorem restore_crash_unmarked_refuted f :
+  exists k, open_after_crash (rrun {| rs_data := DOld; rs_marked := None |} (firstn k (restore_steps_unmarked f))) = DMixed.
 Proof. exists 1%nat. reflexivity. Qed.
+
+(* finishing the interrupted restore from the store's local backup directory whatever the marker
+   records: a crash inside RestoreFromRemoteBackup ends with the LOCAL checkpoint of that name *)
+Theorem restore_resume_from_local_dir_refuted :
+  exists k, let d := open_after_crash_local (rrun {| rs_data := DOld; rs_marked := None |} (firstn k (restore_steps FromRemote))) in
+    d <> DOld /\ d <> DNew FromRemote.
+Proof. exists 2%nat. cbn. split; discriminate. Qed.
 
 (* "finishing" an interrupted restore is restore_plan run again on whatever files are there. At the
    file level: after any number of removals of step 1 and any prefix of the copies of step 2 the
